@@ -1004,8 +1004,8 @@ func (c *c08Run) checkFloat(p c08Pod) {
 	}
 }
 
-func (c *c08Run) doFilter(q c08Filter) {
-	h := c.h
+// buildFilter assembles the Plugin, node and pod of a Filter query (all random choices happen here).
+func (c *c08Run) buildFilter(q c08Filter) (*Plugin, *corev1.Pod, *framework.NodeInfo, *framework.CycleState) {
 	a := &config.LoadAwareSchedulingArgs{EstimatedScalingFactors: c.args.EstimatedScalingFactors, AllowCustomizeEstimation: c.args.AllowCustomizeEstimation,
 		ProdUsageIncludeSys:              c.args.ProdUsageIncludeSys,
 		EstimatedSecondsAfterPodScheduled: c.args.EstimatedSecondsAfterPodScheduled, EstimatedSecondsAfterInitialized: c.args.EstimatedSecondsAfterInitialized,
@@ -1064,6 +1064,12 @@ func (c *c08Run) doFilter(q c08Filter) {
 	if c.r.Bool() {
 		pl.PreFilter(context.TODO(), state, pod, nil)
 	}
+	return pl, pod, ni, state
+}
+
+func (c *c08Run) doFilter(q c08Filter) {
+	h := c.h
+	pl, pod, ni, state := c.buildFilter(q)
 	h.Op("filter %s", q.toks())
 	var st *fwktype.Status
 	if h.Guard(func() { st = pl.Filter(context.TODO(), state, pod, ni) }) {
